@@ -25,7 +25,11 @@ pub const FAM_ALTERNATING: u8 = 14;
 /// integer-valued records whose running sum lies beyond the mantissa (2^24 in f32, 2^53 in f64):
 /// every rounding residue is itself a small integer, i.e. a value that later records take too
 pub const FAM_INT_BEYOND_MANTISSA: u8 = 15;
-pub const FAMILY_NAMES: [&str; 16] = [
+/// a handful of distinct powers of two: sums, reciprocal sums (and, up to the rounding of ln 2,
+/// log sums) of short chunks are exact, so different chunks of one run often agree bit for bit in
+/// count and mean while their spreads differ - two states that a too-coarse key cannot tell apart
+pub const FAM_POW2: u8 = 16;
+pub const FAMILY_NAMES: [&str; 17] = [
     "uniform-positive",
     "mixed-sign-gaussian",
     "log-uniform-wide",
@@ -42,6 +46,7 @@ pub const FAMILY_NAMES: [&str; 16] = [
     "just-above-underflow",
     "alternating-sign-near-constant",
     "integers-beyond-the-mantissa",
+    "few-powers-of-two",
 ];
 pub const FAM_EXACT: u8 = 4;
 
@@ -222,6 +227,7 @@ pub fn gen_tape(family: u8, seed: u64, len: usize, flt: Flt, positive: bool, sca
                     -a
                 }
             }
+            16 => scale * 2f64.powi(r.range(-2, 2) as i32) * if positive || r.chance(0.7) { 1.0 } else { -1.0 },
             9 => walk_step * (1.0 + (i % 7) as f64) * if r.chance(0.9) { 1.0 } else { -1.0 },
             10 => {
                 // the subnormal range of the element type (sums of subnormals are exact; the
